@@ -691,3 +691,60 @@ def list_kind_resolved(ctx, res):
                f"`{ps[0]}` and `{ps[2]}` must be list traits for item-wise "
                f"propagation")
     res.floor(2)
+
+
+# ---------------------------------------------------------------------------
+# C20.mutual-always: a mutual link request always reaches the reverse half
+
+@rule("C20.mutual-always", ["C20"],
+      "when a link is added with mutual=True, every path of sync_trait that "
+      "returns normally has asked the partner for the reverse link: no early "
+      "exit ('already linked') may come before it - the forward half can "
+      "exist alone (one-way link made mutual later, reverse half removed and "
+      "re-added)")
+def mutual_always(ctx, res):
+    from ..cfg import enumerate_paths
+    from ..pycfg import build_cfg
+    from ..pyfacts import atomic_facts
+    repo = get_pyrepo(ctx)
+    mod = repo.module(HT)
+    fn = repo.inlined(HT, "HasTraits.sync_trait", keep=("sync_trait",))
+    ps = [a.arg for a in fn.args.args]      # self, trait_name, object, alias, mutual, remove
+    mutual, remove = ps[4], ps[5]
+    g = build_cfg(fn, "sync_trait")
+    n_add = 0
+    bad = None
+    for path in enumerate_paths(g, max_paths=20000):
+        if path and g.nodes[path[-1][0]].id == g.raise_exit.id:
+            continue
+        facts = set()
+        reverse = False
+        for nid, lab in path:
+            nd = g.nodes[nid]
+            if nd.ast is None:
+                continue
+            if nd.kind == "cond" and lab in ("T", "F"):
+                facts |= atomic_facts(fn, nd.ast, lab == "T")
+                continue
+            for c in ast.walk(nd.ast):
+                if isinstance(c, ast.Call) and isinstance(c.func, ast.Attribute) \
+                        and c.func.attr == "sync_trait" \
+                        and norm(c.func.value) != ps[0]:
+                    reverse = True
+        if ("T", remove) in facts:
+            continue
+        n_add += 1
+        if ("F", mutual) in facts:
+            continue
+        if not reverse and bad is None:
+            bad = [g.nodes[nid].line for nid, lab in path
+                   if g.nodes[nid].kind == "cond"]
+    res.instance("HasTraits.sync_trait:add", mod.loc(fn), paths=n_add)
+    if n_add == 0:
+        raise AnalysisError("sync_trait: no add path found")
+    res.oblige(bad is None, "sync_trait:add:reverse-link-skipped", mod.loc(fn),
+               f"sync_trait(..., mutual=True) can return without asking the "
+               f"partner for the reverse link (conditions at lines {bad}): "
+               f"when the forward half already exists the pair stays "
+               f"one-directional and changes of the partner never come back")
+    res.floor(1)
